@@ -60,6 +60,7 @@ META = dict(
 
 SCALE_K = (0.5, 2.0, 10.0)
 COUNT_C = (2.0, 0.25, 7.0)
+SCALE_K_EXTREME = (1e-9, 1e-15, 1e4)
 EDGE_DENSITIES = (1.0, 2.33)
 NONNEG = ("rho_im", "rho_inc", "xs_coh", "xs_abs", "xs_inc", "penetration")
 A9 = c03.K9
@@ -273,7 +274,9 @@ class Edges(object):
                 acc.outcome("%s: rho_re%s, sigma_i%s" % (cls, "<0" if ref["rho_re"] < 0 else ">=0",
                                                         "=0" if ref["sigma_i"] == 0 else ">0"))
                 # density x k
-                for k in SCALE_K:
+                # extreme factors (rarefied gas .. neutron-star crust) once per compound: "all positive densities"
+                ks = SCALE_K + (SCALE_K_EXTREME if (d == EDGE_DENSITIES[0] and w == wls[0]) else ())
+                for k in ks:
                     c2 = dict(case, edge="density", k=k)
                     esrc = "%s, density=%r, wavelength=%r" % (src, d * k, w)
                     st, B = self.call(comp, src, dict(density=d * k, wavelength=w), None)
